@@ -42,6 +42,10 @@ type c06Case struct {
 	GoType string        `json:"go_type,omitempty"`
 	Data   []byte        `json:"data"`
 	What   string        `json:"what"` // description of the mutation, for the reader
+	// Valid (body, skip): the unaltered encoding; it is decoded with the same codec
+	// object right after the altered one (a codec is built once and used for every
+	// message: what an input that was refused leaves behind must not be paid for by the next).
+	Valid []byte `json:"valid,omitempty"`
 	// Projections: the file is also read into the target with every other top-level
 	// field removed and into a struct with no fields at all (everything is skipped).
 	Projections bool `json:"projections,omitempty"`
@@ -269,6 +273,11 @@ func runC06InWorker(c c06Case) error {
 			_ = codec.Skip(rb)
 		} else {
 			_ = codec.Read(rb, reflect.New(typ).UnsafePointer())
+		}
+		if c.Valid != nil {
+			if err := codec.Read(avro.NewReadBuf(c.Valid), reflect.New(typ).UnsafePointer()); err != nil {
+				return fmt.Errorf("a valid record body, decoded with the same codec right after the altered one (%s), is refused: %v", c.What, err)
+			}
 		}
 	case "pair":
 		// an arbitrary generated schema against an arbitrary generated Go type:
@@ -530,6 +539,7 @@ func drawC06(t *rapid.T) c06Case {
 			_, spans, _, _ := ref.DecodeSpans(w.Schema, b)
 			return varintSpans(spans)
 		})
+		c.Valid = body
 		return c
 	}
 	c.Entry = "file"
@@ -896,7 +906,29 @@ var schemaFragments = []string{
 	`"LongList"`, `["null","Tree"]`,
 }
 
+// deepNullable: a nullable array of nullable arrays ... depth levels deep, as the
+// type of a field (named so that no catalogue target has it, or so that some do).
+func deepNullable(depth int, inner string, field string) string {
+	doc := inner
+	for i := 0; i < depth; i++ {
+		switch i % 3 {
+		case 0:
+			doc = `["null",{"type":"array","items":` + doc + `}]`
+		case 1:
+			doc = `["null",{"type":"map","values":` + doc + `}]`
+		default:
+			doc = `[{"type":"record","name":"n` + fmt.Sprint(i) + `","fields":[{"name":"v","type":` + doc + `}]},"null"]`
+		}
+	}
+	return `{"type":"record","name":"deep","fields":[{"name":"id","type":"long"},{"name":"` + field + `","type":` + doc + `}]}`
+}
+
 func drawC06Schema(t *rapid.T) c06Case {
+	if gen.Uniform(t, "deepNullable", 25) == 0 {
+		depth := []int{12, 24, 40, 64, 100}[gen.Uniform(t, "deepDepth", 5)]
+		field := []string{"zz_absent", "name", "ins", "f2"}[gen.Uniform(t, "deepField", 4)]
+		return c06Case{Entry: "schema", Data: []byte(deepNullable(depth, `"long"`, field)), What: fmt.Sprintf("nullable collections nested %d levels deep", depth)}
+	}
 	switch gen.Uniform(t, "schemaCls", 4) {
 	case 0:
 		return c06Case{Entry: "schema", Data: []byte(rapid.SampledFrom(schemaFragments).Draw(t, "fragment")), What: "schema fragment"}
